@@ -1721,3 +1721,91 @@ def o17(ctx, rep):
         missing = ", ".join(short(k) for k, v in glob.items() if not v)
         rep.check(ok, "O17", short(b.id), "wal-written-into-empty-file", "the WAL blob is written at %s over whatever the file holds: no truncation to 0 precedes the write in %s, and %s no longer leave(s) the WAL empty - the blob of the previous sync (whose sequence number still matches the meta page) is overwritten in place, and a power loss that keeps a later page but not the first one leaves a mixture that the redo trusts" % (e.site, short(b.id), missing or "-"), site=e.site, detail=why)
     return n
+
+
+# ---- O18 (C03): the redo applies the WHOLE Update entry -----------------------------------------------
+# A WAL Update entry carries everything needed to rebuild the bucket page from whatever the interrupted writeout left there:
+# the page id (the label probes look for), the diff and the changed nodes, the elided-children word, the bucket.  The redo
+# may not assume that any part is "already there": the meta-map pages and the bucket pages of one sync are separate writes
+# and a crash can fall between them.  Rule: for every field of the Update variant, every success path from the arm's entry to
+# the write of the hash-table page passes a call that receives both that field and the page buffer being written (or the
+# field feeds the write itself, as the bucket does through the page number).
+
+
+def o18(ctx, rep):
+    import shadow
+
+    facts = ctx.facts
+    entry = facts.body("nomt::bitbox::recover")
+    region = owned_region(facts, entry.id)
+    body = entry
+    for rb in [entry] + [facts.bodies[x] for x in sorted(region) if facts.bodies[x].kind != "Closure"]:
+        if any((t.get("callee") or "").endswith("WalBlobReader::read_entry") for _b, t in rb.calls()):
+            body = rb
+            break
+    fn = short(body.id)
+    adt = facts.adts.get("nomt::bitbox::wal::read::WalEntry")
+    if adt is None:
+        raise CheckBroken("ANCHOR-MISSING: type nomt::bitbox::wal::read::WalEntry")
+    names = [v["name"] for v in adt.get("variants", [])]
+    upd = [v for v in adt.get("variants", []) if v["name"] == "Update"]
+    if not upd:
+        rep.notes.append("O18: WalEntry has no Update variant any more: not decided")
+        return 0
+    fields = [f["n"] for f in upd[0].get("fields", [])]
+    # the dispatch on the entry kind and the Update arm
+    arm = None
+    for sb in range(body.n):
+        t = body.term(sb)
+        if t["k"] != "switch" or body.is_cleanup(sb):
+            continue
+        for s_ in body.stmts(sb):
+            if s_["k"] == "assign" and s_["rv"]["k"] == "discr" and (body.place_ty(s_["rv"]["pl"]) or "") == "nomt::bitbox::wal::read::WalEntry" and _bare_local(t["d"]) == s_["pl"]["l"]:
+                for (v, tb) in t["vals"]:
+                    if str(v).isdigit() and int(v) < len(names) and names[int(v)] == "Update":
+                        arm = tb
+    writes = [e.bb for e in ctx.model.ev_by_body.get(body.id, []) if e.kind == "write" and e.cls == "ht"]
+    if arm is None or not writes:
+        rep.notes.append("O18: the Update arm and the page write of the redo are not in one function (%s): not decided" % fn)
+        return 0
+    rem = set(body.ok_removed())
+    reads = [b for b, t in body.calls() if (t.get("callee") or "").endswith("WalBlobReader::read_entry")]
+    loops = [blk for (h, blk, lat) in ctx.model.loops(body) if reads and reads[0] in blk]
+    loop = min(loops, key=len) if loops else set(range(body.n))
+    inarm = body.reachable([arm], rem | (set(range(body.n)) - set(loop)))
+    writes = [w for w in writes if w in inarm]
+    if not writes:
+        rep.notes.append("O18: no hash-table write is reachable from the Update arm in %s: judged by O14" % fn)
+        return 0
+
+    def is_entry_field(r, f):
+        return f in r.fields and r.kind in ("call", "via")
+
+    n = 0
+    for w in writes:
+        wt = body.term(w)
+        # the buffer that is written: the call it comes from (`io::read_page(..)?`), looking through `?` / deref only
+        data_roots = [r for a in wt["args"][1:2] for r in trace(body, a)]
+        pkeys = {(r.bb, str(r.what)) for r in data_roots if r.kind == "call" and not any(f in r.fields for f in fields)}
+        if not pkeys:
+            rep.notes.append("O18: the buffer written at %s does not come from a call (read of the bucket page): not decided" % wt.get("ln"))
+            continue
+        for f in fields:
+            n += 1
+            apps = set()
+            for b, t in body.calls():
+                if b not in inarm or body.is_cleanup(b) or not t.get("args"):
+                    continue
+                roots = [r for a in t["args"] for r in shadow._deep_roots(body, a)]
+                has_f = any(is_entry_field(r, f) for r in roots)
+                if not has_f:
+                    continue
+                touches = b == w or any(r.kind == "call" and (r.bb, str(r.what)) in pkeys for r in roots)
+                if touches:
+                    apps.add(b)
+            reach = body.reachable([arm] if arm not in apps else [], rem | apps)
+            ok = bool(apps) and w not in reach
+            if w in apps:
+                ok = True
+            rep.check(ok, "O18", fn, "update-entry-field=%s" % f, "the redo can write the bucket page at %s without applying the `%s` of the WAL Update entry to it (%s): whatever the interrupted writeout left in that part of the page is trusted, although the meta-map page and the bucket page of one sync are separate writes and a crash can fall between them" % (wt.get("ln"), f, "no call receives both the field and the page" if not apps else "a path from the arm to the write avoids bb%s" % sorted(apps)), site=wt.get("ln"), detail="`%s` is applied to the page at bb%s on every path to the write at %s" % (f, sorted(apps), wt.get("ln")))
+    return n
